@@ -56,6 +56,14 @@ Theorem C05_refund_cap : forall consumed counter,
 Proof. exact refund_cap. Qed.
 Print Assumptions C05_refund_cap.
 
+(* the rule is monotone in the gas consumed: with bounds lb <= consumed <= ub from the SSTORE cost table the observed
+   gas used must lie in [gas_after_refund lb c, gas_after_refund ub c] - checked by Corr/CorrTxPipe.oracle_consistent on
+   every executed call of the driver's storage contract, which ties this rule to refundGas of state_transition_core.go *)
+Theorem C05_refund_rule_monotone : forall c1 c2 counter,
+  0 <= c1 <= c2 -> gas_after_refund c1 counter <= gas_after_refund c2 counter.
+Proof. exact gas_after_refund_monotone. Qed.
+Print Assumptions C05_refund_rule_monotone.
+
 (* cumulative gas is the running sum, in every block, at every position (with C13_block_numbering) *)
 Theorem C05_cumulative_is_running_sum : forall s l pre x post,
   trace (begin_block s) l = pre ++ x :: post ->
